@@ -23,6 +23,23 @@ PROPS = {
         stub=["datastore (simds: snapshot enumeration, per-entry scheduling points, injected errors)"],
         assumptions=COMMON_ASSUMPTIONS + ["an injected datastore error happens before the operation takes effect", "blocks are honest (bytes determined by the multihash), so 'last stored bytes' is unambiguous"],
     ),
+    "C22": dict(
+        harness="pin", pkg="pinning/pinner/dspinner", test="TestVerifC22", yield_pkgs=["pinning/pinner/dspinner"], level="exploration",
+        quick=dict(runs=16 * 400, budget=90), thorough=dict(runs=16 * 6000, budget=1500),
+        rule="one case = a DAG (<=10 quick / <=25 thorough dag-pb nodes, shared subtrees, 0-3 blocks missing), a history of <=12 / <=20 ops (Pin recursive/direct with names, PinWithMode incl. invalid modes, Unpin, Update, Flush), fetch-error plan, per-op context cancellation at the k-th seam call, GetMany order, scheduling tape; after every op all pin queries are compared with the model; distinct = distinct event-log fingerprint; non-trivial = at least one context switch or injected fault",
+        real=["dspinner.pinner (Pin, PinWithMode, Unpin, Update, Flush, all queries)", "dsindex", "merkledag.FetchGraph / Walk (concurrent)", "dagutils.DiffEnumerate"],
+        stub=["datastore (simds)", "DAG service (simdag: seeded delivery order, missing blocks, fetch errors)", "uuid source (seeded)"],
+        assumptions=COMMON_ASSUMPTIONS + ["datastore writes do not fail in this check (write failures/crashes are C23's dimension); only fetch errors, missing blocks, cancelled contexts and semantic errors make operations fail", "a query that has to traverse a recursive graph with a missing block may fail; it is then not compared"],
+    ),
+    "C23": dict(
+        harness="pin", pkg="pinning/pinner/dspinner", test="TestVerifC23", yield_pkgs=[], level="fault_enumeration",
+        quick=dict(runs=16 * 60, budget=120), thorough=dict(runs=16 * 1500, budget=1500),
+        rule="one case = a DAG (<=6 quick / <=10 thorough nodes), a history of <=6 / <=8 pinner ops (autosync on/off); the datastore write log of the history is cut after EVERY write (exhaustive per history), the surviving store is reopened with dspinner.New (dirty-flag recovery), and the recovery is itself cut after each of its writes (nested depth 1); every reopened state is checked by raw key inspection (index<->record agreement) and for lost pins; distinct = distinct event-log fingerprint of the history; non-trivial = at least one crash state was materialised; faults_fired.crash-cut = number of crash states reopened",
+        real=["dspinner.New / rebuildIndexes (recovery)", "dspinner Pin/PinWithMode/Unpin/Update/Flush producing the write sequence", "dsindex"],
+        stub=["datastore (simds write log, prefix materialisation)", "DAG service (simdag, fault-free here)", "uuid source (seeded)"],
+        assumptions=COMMON_ASSUMPTIONS + ["crash model of the property statement: the process stops after an individual datastore write and writes are durable in order; lost or reordered un-synced writes are not modelled", "exhaustive over the write prefixes of each generated history, sampled over histories"],
+        exhaustive=True,
+    ),
     "C02": dict(
         harness="c02", pkg="blockstore", test="TestVerifC02", yield_pkgs=["blockstore"], level="exploration",
         quick=dict(runs=16 * 2500, budget=90), thorough=dict(runs=16 * 60000, budget=1500),
